@@ -116,3 +116,22 @@ template <class S> struct BronsonAd {
   bool consistent() { return s.check_consistency(); }
 };
 }
+namespace drv {
+// G6: lock-based hash sets (CuckooSet, StripedSet): no extract / get
+template <class S, unsigned LESS = 0> struct LockSetAd {
+  S& s; LockSetAd(S& s_) : s(s_) {}
+  unsigned caps() const { return (C_INSF | C_UPD | C_ERA | C_ERAF | C_FINDF | C_EMP | C_SIZE | C_CLEAR) & ~LESS; }
+  bool ins(int k, int id) { return s.insert(Item(k, id)); }
+  bool emp(int k, int id) { return s.emplace(k, id); }
+  bool insf(int k, int id, int& calls) { return s.insert(Item(k, id), [&](Item&) { ++calls; }); }
+  int upd(int k, int id, bool allow, int& seen) { auto r = s.update(Item(k, id), [&](bool bNew, Item& item, Item const&) { if (!bNew) seen = item.id; }, allow); return r.first ? (r.second ? 3 : 2) : 0; }
+  bool era(int k) { return s.erase(k); }
+  bool eraf(int k, int& seen) { return s.erase(k, [&](Item const& it) { seen = it.id; }); }
+  bool ext(int, int&) { return false; } bool get(int, int&) { return false; } bool unl(int, int) { return false; } bool extmin(int&) { return false; } bool extmax(int&) { return false; }
+  bool find(int k) { return s.contains(k); }
+  bool findf(int k, int& seen) { return s.find(k, [&](Item& it, int const&) { seen = it.id; }); }
+  size_t size() { return s.size(); } bool empty() { return s.empty(); } void clear() { s.clear(); }
+  template <class F> void traverse(F) {}
+  bool consistent() { return true; }
+};
+}
